@@ -209,6 +209,8 @@ class Run:
                 if c.get("deid") == "k":
                     dst_ent = dst_ent.children[0]
                 src_ent = ents2[c["src"]] if c.get("seid") == "f" else ents[c["src"]]
+                if c.get("seid") == "k":
+                    src_ent = src_ent.children[0]
                 if cfg.get("badpair") and pairs:
                     # the user's connect() call names one more pair that mosaik has to reject (an
                     # attribute that does not exist) and handles the error: the valid pairs of the
@@ -307,4 +309,4 @@ class Run:
 
 
 def init_token(c):
-    return "init_" + c["src"] + ("F" if c.get("seid") == "f" else "")
+    return "init_" + c["src"] + {"f": "F", "k": "K"}.get(c.get("seid"), "")
